@@ -143,6 +143,106 @@ def generator(R, rng, tier):
                                  "signature": None})
 
 
+def generated_plus_settings(R, rng, tier):
+    """The generated file with a documented settings block edited: the edit takes effect exactly as if the block stood alone
+    (the per-plugin-name sections the generator also writes are never looked up)."""
+    import yaml
+    d = os.path.join(impl.scratch(), "c13gs")
+    os.makedirs(d, exist_ok=True)
+    out = os.path.join(d, "generated.yaml")
+    r = climain.run_main(["-o", out], entry="bandit.cli.config_generator")
+    if r["exception"] or not os.path.exists(out):
+        return
+    gen = yaml.safe_load(open(out)) or {}
+    tgt = os.path.join(d, "prog.py")
+    open(tgt, "w").write(PROG + "import subprocess\nmyspawn(zz_c, shell=True)\nmyspawn('ls')\nf = open('/var/data/zz')\nzz_g('/var/data/x')\n")
+    blocks = [{"shell_injection": {"subprocess": ["myspawn"], "shell": [], "no_shell": []}},
+              {"shell_injection": {"subprocess": [], "shell": ["myspawn"], "no_shell": []}},
+              {"hardcoded_tmp_directory": {"tmp_dirs": ["/var/data"]}},
+              {"try_except_pass": {"check_typed_exception": True}},
+              {"ssl_with_bad_version": {"bad_protocol_versions": ["PROTOCOL_ZZ"]}},
+              {"weak_cryptographic_key": {"weak_key_size_dsa_high": 4096}}]
+    for blk in blocks:
+        for fmt in ("yaml", "toml"):
+            alone = os.path.join(d, "alone." + fmt)
+            both = os.path.join(d, "both." + fmt)
+            merged = dict(gen)
+            merged.update(blk)
+            if fmt == "yaml":
+                yaml.safe_dump(blk, open(alone, "w"))
+                yaml.safe_dump(merged, open(both, "w"))
+            else:
+                try:
+                    open(alone, "w").write(to_toml(blk))
+                    open(both, "w").write(to_toml(merged))
+                except Exception:
+                    continue
+            a = climain.run_main(["-q", "-f", "json", "-c", alone, tgt])
+            b = climain.run_main(["-q", "-f", "json", "-c", both, tgt])
+            R.case(("gen+settings", json.dumps(blk, sort_keys=True), fmt), sample={"block": blk, "format": fmt, "exit": b["exit"]})
+            R.count("generated+settings")
+            if a["exception"] or b["exception"] or a["exit"] != b["exit"] or results(a) != results(b):
+                R.violations.append({"what": "settings block %s takes a different effect inside the generated %s file than alone" % (list(blk)[0], fmt),
+                                     "input": {"block": blk, "format": fmt},
+                                     "observed": {"alone": (a["exit"], a["exception"], (results(a) or [])[:6]), "in_generated": (b["exit"], b["exception"], (results(b) or [])[:6])},
+                                     "signature": None})
+
+
+def contradictions(R, rng, tier):
+    """A test both selected and skipped is rejected (status 2, diagnostic) wherever the two halves come from."""
+    import yaml
+    d = os.path.join(impl.scratch(), "c13x")
+    os.makedirs(d, exist_ok=True)
+    tgt = os.path.join(d, "prog.py")
+    open(tgt, "w").write(PROG)
+
+    def cfg(fmt, doc):
+        path = os.path.join(d, "c." + fmt)
+        if fmt == "yaml":
+            yaml.safe_dump(doc, open(path, "w"))
+        else:
+            open(path, "w").write(to_toml(doc))
+        return ["-c", path]
+
+    def ini(tests=None, skips=None):
+        path = os.path.join(d, "x.ini")
+        open(path, "w").write("[bandit]\n" + ("tests = %s\n" % tests if tests else "") + ("skips = %s\n" % skips if skips else ""))
+        return ["--ini", path]
+    combos = []
+    for fmt in ("yaml", "toml"):
+        combos += [("%s tests + cli -s" % fmt, cfg, (fmt, {"tests": ["B101", "B102"]}), ["-s", "B101"]),
+                   ("%s skips + cli -t" % fmt, cfg, (fmt, {"skips": ["B101", "B102"]}), ["-t", "B102"]),
+                   ("%s tests + ini skips" % fmt, cfg, (fmt, {"tests": ["B101", "B102"]}), ("ini", None, "B102")),
+                   ("%s skips + ini tests" % fmt, cfg, (fmt, {"skips": ["B101"]}), ("ini", "B101,B602", None)),
+                   ("%s tests + %s skips" % (fmt, fmt), cfg, (fmt, {"tests": ["B101"], "skips": ["B101"]}), [])]
+    combos += [("cli -t + cli -s", None, None, ["-t", "B101,B102", "-s", "B102"]), ("ini tests + ini skips", None, None, ("ini", "B101", "B101")),
+               ("ini tests + cli -s", None, None, ("ini+cli", "B101,B102", None, ["-s", "B101"])),
+               ("cli -t + ini skips", None, None, ("ini+cli", None, "B602", ["-t", "B602,B101"]))]
+    for name, mk, mkargs, rest in combos:
+        argv = ["-q", "-f", "json"]
+        if mk is not None:
+            argv += mk(*mkargs)
+        if isinstance(rest, tuple):
+            if rest[0] == "ini":
+                argv += ini(rest[1], rest[2])
+            else:
+                argv += ini(rest[1], rest[2]) + rest[3]
+        else:
+            argv += rest
+        r = climain.run_main(argv + [tgt])
+        R.case(("contradiction", name), sample={"case": name, "exit": r["exit"], "exception": r["exception"]})
+        R.count("contradiction")
+        inp = {"case": name, "argv": [a if not a.startswith(d) else os.path.basename(a) for a in argv]}
+        if r["exception"]:
+            R.violations.append({"what": "contradictory selection (%s) ends in a traceback (%s)" % (name, r["exception"]), "input": inp,
+                                 "observed": (r["traceback"] or "")[-300:], "signature": None})
+        elif r["exit"] != 2:
+            R.violations.append({"what": "contradictory selection (%s) is not rejected with exit status 2 (exit %s): scanned with silently changed settings" % (name, r["exit"]),
+                                 "input": inp, "observed": {"exit": r["exit"], "findings": (results(r) or [])[:5]}, "signature": None})
+        elif not (r["stderr"].strip() or r["stdout"].strip()):
+            R.violations.append({"what": "contradictory selection (%s) rejected without a diagnostic" % name, "input": inp, "observed": "", "signature": None})
+
+
 TOP = [("empty", ""), ("null", "null\n"), ("int", "3\n"), ("str", "hello\n"), ("list", "- a\n- b\n"), ("bool", "true\n"),
        ("syntax", "a: [1\n"), ("tabs", "a:\n\t- b\n"), ("binary", "\x00\x01"), ("mapping-empty", "{}\n")]
 VALUES = [("null", "null"), ("int", "3"), ("str", "B101"), ("list-int", "[1, 2]"), ("map", "{a: 1}"), ("bool", "true"), ("nested", "[[B101]]")]
@@ -308,6 +408,8 @@ def run(R, replay=None):
     carriers(R, rng, R.tier)
     generator(R, rng, R.tier)
     malformed(R, rng, R.tier)
+    contradictions(R, rng, R.tier)
+    generated_plus_settings(R, rng, R.tier)
     ini_booleans(R, rng, R.tier)
     model_corr(R, rng, R.tier)
     R.disagreements_checked = R.evaluations
